@@ -246,6 +246,8 @@ func gen(t tid, depth int) []*progen.Val {
 		var out []*progen.Val
 		if len(ev) > 1 && depth < 2 {
 			out = append(out, progen.Obj(map[string]*progen.Val{"a": ev[0].Clone(), "b é": ev[1].Clone(), "x": progen.Null(), "z": ev[0].Clone()}))
+			// keys that need escaping when the map is re-encoded
+			out = append(out, progen.Obj(map[string]*progen.Val{"q\"k": ev[0].Clone(), "b\\s": ev[1].Clone(), "n\nl": ev[0].Clone(), "t\tb\u0001": progen.Null()}))
 		}
 		out = append(out, progen.Obj(map[string]*progen.Val{"a": ev[0].Clone()}), progen.Obj(nil), progen.Null())
 		return out
